@@ -243,6 +243,34 @@ pub fn check_c14(buf: &[u8], align_sel: u8, elf64: bool, little: bool) -> Result
     Ok(())
 }
 
+/// C03, compressed sections (native only): a section flagged SHF_COMPRESSED yields the designated range minus its compression
+/// header (12 bytes in this ELF32 file) -- same start address and length as file[off+12..off+size] -- or an error when the range
+/// or the header does not fit; SHT_NOBITS is empty whatever the flags say
+#[cfg(not(kani))]
+pub fn check_c03_compressed(off: u64, size: u64, nobits: bool) -> Result<(), String> {
+    const N: u64 = 60;
+    let mut file = [0u8; N as usize];
+    file[..8].copy_from_slice(&[0x7f, b'E', b'L', b'F', 1, 1, 1, 0]);
+    file[16] = 2; file[18] = 3; file[20] = 1; file[40] = 52; file[42] = 32; file[46] = 40;
+    let eb = match elf::ElfBytes::<AnyEndian>::minimal_parse(&file) { Ok(e) => e, Err(_) => fail!("minimal_parse rejected a header-only ELF32 file") };
+    let sh = elf::section::SectionHeader { sh_name: 0, sh_type: if nobits { 8 } else { 1 }, sh_flags: 0x800 | 2, sh_addr: 0, sh_offset: off, sh_size: size, sh_link: 0, sh_info: 0, sh_addralign: 0, sh_entsize: 0 };
+    let fits: Option<(usize, usize)> = off.checked_add(size).and_then(|e| if e <= N { Some((off as usize, e as usize)) } else { None });
+    match eb.section_data(&sh) {
+        Ok((d, c)) => {
+            if nobits { if !d.is_empty() || c.is_some() { fail!("section_data of a SHT_NOBITS section (flagged SHF_COMPRESSED) is not (empty, no compression header): {} bytes, header {:?}", d.len(), c); } return Ok(()); }
+            match fits {
+                Some((s, e)) if e - s >= 12 => {
+                    if c.is_none() { fail!("section_data of a compressed section returned no compression header"); }
+                    if d.len() != e - s - 12 || (!d.is_empty() && !core::ptr::eq(d.as_ptr(), file[s + 12..].as_ptr())) { fail!("compressed payload is {} bytes; the header designates file[{}..{}] minus a 12-byte compression header", d.len(), s, e); }
+                }
+                _ => fail!("section_data of a compressed section is Ok although [{}, {}+{}) does not hold a compression header inside the {}-byte file", off, off, size, N),
+            }
+        }
+        Err(_) => if nobits || matches!(fits, Some((s, e)) if e - s >= 12) { fail!("section_data is Err although the compressed section [{}, {}+{}) and its header lie inside the file (nobits={})", off, off, size, nobits); },
+    }
+    Ok(())
+}
+
 /// C03: ElfBytes::section_data / segment_data return exactly the byte range the (caller-supplied) header designates -- same
 /// start address and length as file[off..off+size] -- over a 60-byte ELF32/LE file (52-byte header without tables + 8 bytes)
 pub fn check_c03_range(off: u64, size: u64, memsz: u64, nobits: bool) -> Result<(), String> {
